@@ -26,7 +26,7 @@ bad = 0
 with cf.ThreadPoolExecutor(8) as ex:
     for p, rc, out in ex.map(run, props):
         for l in out.split("\n"):
-            m = re.match(r"KNOWN-FINDING: property=(\S+) (\S+) (\S+) ", l)
+            m = re.match(r"KNOWN-FINDING: property=(\S+) (\S+) (.+?) — ", l)
             if m:
                 seen.add(m.groups())
         last = [l for l in out.strip().split("\n") if l][-1] if out.strip() else ""
